@@ -271,6 +271,12 @@ func (s c19Spec) ops(st *c19State) (out []opx) {
 				st.txn([]model.Act{{Op: "put", Off: r0, W: []model.Write{wv(d, true), wv(v0, false)}}}, false, tag),
 				st.txn([]model.Act{{Op: "insert", W: []model.Write{wv(d, true)}}}, false, ""),
 			)
+			// a merge whose result equals the value already stored is a committed store too
+			neutral := model.Val{}
+			out = append(out,
+				st.txn([]model.Act{{Op: "put", Off: r0, W: []model.Write{wv(neutral, true)}}}, false, ""),
+				st.txn([]model.Act{{Op: "put", Off: r0, W: []model.Write{wv(v1, false), wv(neutral, true)}}}, false, ""),
+			)
 		}
 		if len(rows) > 1 {
 			out = append(out, st.txn([]model.Act{{Op: "put", Off: rows[1], W: []model.Write{wv(v0, false)}}, {Op: "put", Off: r0, W: []model.Write{wv(v1, false)}}}, false, ""))
@@ -303,20 +309,23 @@ func init() {
 		Prop:  "C19",
 		Level: "model_checking",
 		Rule: "every history up to depth d over {insert with/without the watched column, overwrite, two overwrites of one row in one transaction, write to another column, merge, put+merge, " +
-			"merge+put, merge-on-insert, delete, multi-row/multi-block writes, delete+write, the same ending in error, createTrigger, dropTrigger} for watched kinds int, string (concatenating " +
+			"merge+put, merge-on-insert, merge that leaves the value as it is (alone and after a put), delete, multi-row/multi-block writes, delete+write, the same ending in error, createTrigger, dropTrigger} for watched kinds int, string and record (concatenating " +
 			"merge) and bool; after every transaction the trigger log equals the model's committed stores (offset, final value) and row deletions as a multiset, in issue order per row; " +
 			"states = distinct (model state, trigger active); non-trivial = trigger active",
 		Assumptions: []string{"for a bool column a store of false and a row deletion are indistinguishable to the callback and are compared as the same event"},
 		Budget:      budget(170*time.Second, 28*time.Minute),
 		Bounds: func(tier string) map[string]any {
 			if tier == "quick" {
-				return map[string]any{"depth": "5 (empty), 4 (sparse-3)", "kinds": []string{"int", "string", "bool"}}
+				return map[string]any{"depth": "5 (empty), 4 (sparse-3)", "kinds": []string{"int", "string", "bool", "record (empty, depth 4)"}}
 			}
-			return map[string]any{"depth": "5 (empty), 4 (sparse-3), 3 (block-edge)", "kinds": []string{"int", "string", "bool"}}
+			return map[string]any{"depth": "5 (empty), 4 (sparse-3), 3 (block-edge)", "kinds": []string{"int", "string", "bool", "record"}}
 		},
 		Units: func(tier string) (units []eng.Unit) {
-			for _, kd := range []string{"int", "string", "bool"} {
+			for _, kd := range []string{"int", "string", "bool", "record"} {
 				specs := []c19Spec{{kd, "empty", 5}, {kd, "sparse-3", 4}}
+				if kd == "record" {
+					specs = []c19Spec{{kd, "empty", 4}}
+				}
 				if tier != "quick" {
 					specs = []c19Spec{{kd, "empty", 5}, {kd, "sparse-3", 4}, {kd, "block-edge", 3}}
 				}
